@@ -265,6 +265,10 @@ class ExprMixin:
     def ev_Name(self, node, st):
         n = node.id
         if n in st.locals:
+            if isinstance(st.locals[n], SExc) and not getattr(self, '_in_raise', False):
+                # a caught exception used as a VALUE (passed on, formatted, ...): expression results of type SExc mean
+                # "raised" to every consumer, so anything but `raise e` / `e.attr` is outside the subset
+                raise Unsupported('use of the caught exception %r as a value at line %d' % (n, node.lineno))
             return [(st.locals[n], st)]
         if n in self.consts:
             return [(self.consts[n], st)]
@@ -298,6 +302,9 @@ class ExprMixin:
 
     def ev_Attribute(self, node, st):
         out = []
+        if isinstance(node.value, ast.Name) and isinstance(st.locals.get(node.value.id), SExc):
+            # attribute of a caught exception bound by `except ... as e` (an exception VALUE, not a raise)
+            return self.load_attr(st.locals[node.value.id], node.attr, st, node)
         for v, s in self.ev(node.value, st):
             if is_exc(v):
                 out.append((v, s))
@@ -334,6 +341,9 @@ class ExprMixin:
             return [(SFunc('modfunc', '%s.%s' % (v.a[0], v.a[1]), attr), st)]
         if isinstance(v, (SStr, SVal, STuple, SLit, SSeq)):
             return [(SFunc('method', v, attr), st)]
+        if isinstance(v, SExc) and attr == 'errno':
+            # the error number of a caught OS error: an arbitrary integer
+            return [(SInt(self.fresh(st, 'errno', z3.IntSort())), st)]
         raise Unsupported('attribute %s of %r' % (attr, v))
 
     def ev_Subscript(self, node, st):
@@ -810,6 +820,8 @@ class ExprMixin:
 
 
 MODULE_CONSTANTS = {'os.SEEK_SET': 0, 'os.SEEK_CUR': 1, 'os.SEEK_END': 2}      # documented POSIX values
+import errno as _errno  # noqa: E402
+MODULE_CONSTANTS.update({'errno.' + _n: _v for _n, _v in vars(_errno).items() if isinstance(_v, int)})  # this platform's values
 BUILTIN_NAMES = {'issubclass', 'super', 'hash', 'len', 'range', 'sum', 'min', 'max', 'int', 'float', 'isinstance', 'callable', 'getattr',
                  'iter', 'next', 'list', 'sorted', 'abs', 'bool', 'tuple', 'dict', 'set', 'hasattr', 'enumerate',
                  'zip', 'reversed', 'str', 'repr', 'type', 'id', 'print', 'object', 'frozenset', 'bytes'}
